@@ -78,6 +78,7 @@ type Call struct {
 	ID     string
 	Outs   []KV // port -> path (regular outputs)
 	SOuts  []KV // port -> fifo path (streaming outputs)
+	DOuts  []KV // port -> path of an output that is a directory (holding one file 'data')
 	Ins    []KV // port -> path
 	Params []KV
 	Tags   []KV
@@ -107,7 +108,7 @@ func Parse(args []string) *Call {
 		switch k {
 		case "id":
 			c.ID = v
-		case "o", "os", "i", "p", "t":
+		case "o", "os", "od", "i", "p", "t":
 			col := strings.Index(v, ":")
 			if col < 0 {
 				continue
@@ -118,6 +119,8 @@ func Parse(args []string) *Call {
 				c.Outs = append(c.Outs, kv)
 			case "os":
 				c.SOuts = append(c.SOuts, kv)
+			case "od":
+				c.DOuts = append(c.DOuts, kv)
 			case "i":
 				c.Ins = append(c.Ins, kv)
 			case "p":
@@ -383,7 +386,11 @@ func Exec(args []string, env *Env) int {
 	inShas := []KV{}
 	insMap := map[string]string{}
 	for _, kv := range c.Ins {
-		b, err := os.ReadFile(env.abs(kv.V))
+		ipath := env.abs(kv.V)
+		if fi, e := os.Stat(ipath); e == nil && fi.IsDir() {
+			ipath = filepath.Join(ipath, "data")
+		}
+		b, err := os.ReadFile(ipath)
 		if err != nil {
 			return finish(4, "input unreadable: "+kv.V+": "+err.Error(), nil, nil)
 		}
@@ -406,13 +413,17 @@ func Exec(args []string, env *Env) int {
 	type wr struct {
 		port, path string
 		stream     bool
+		dir        bool
 	}
 	var ws []wr
 	for _, kv := range c.Outs {
-		ws = append(ws, wr{kv.K, kv.V, false})
+		ws = append(ws, wr{kv.K, kv.V, false, false})
 	}
 	for _, kv := range c.SOuts {
-		ws = append(ws, wr{kv.K, kv.V, true})
+		ws = append(ws, wr{kv.K, kv.V, true, false})
+	}
+	for _, kv := range c.DOuts {
+		ws = append(ws, wr{kv.K, kv.V, false, true})
 	}
 	sort.SliceStable(ws, func(i, j int) bool { return ws[i].port < ws[j].port })
 	for idx, w := range ws {
@@ -425,6 +436,10 @@ func Exec(args []string, env *Env) int {
 			path = path + ".wrong"
 		}
 		full := env.abs(path)
+		if w.dir {
+			os.MkdirAll(full, 0777)
+			full = filepath.Join(full, "data")
+		}
 		var f *os.File
 		var err error
 		if w.stream {
